@@ -70,6 +70,14 @@ func verifC04(mode, origin, space, nbytes int, sendfile bool, preempt int) {
 	}
 	f := vk.newFd(vkSockStream)
 	f.sendSpace = space
+	// the peer keeps reading: it drains the send buffer whenever something is
+	// in it, at any point of the engine's progress (its own thread)
+	verifGo(func() {
+		for i := 0; i < 2*nbytes+2; i++ {
+			verifBlockUntil(func() bool { return f.sendSpace < space })
+			f.peerDrain(space - f.sendSpace)
+		}
+	})
 	conn = &Conn{fd: f.fd, typ: ConnTypeTCP}
 	if err := g.pollers[0].addConn(conn); err != nil {
 		verifFail("addconn-failed", "")
@@ -81,16 +89,8 @@ func verifC04(mode, origin, space, nbytes int, sendfile bool, preempt int) {
 	case 2:
 		doWrite(conn)
 	}
-	// the peer keeps reading: whenever the system is quiescent it has drained
-	// what was sent, i.e. the send buffer is empty again
-	for round := 0; round < nbytes+2; round++ {
-		verifJoin()
-		if f.sendSpace == space {
-			break
-		}
-		f.peerDrain(space - f.sendSpace)
-	}
 	verifJoin()
+	verifAssertD(f.sendSpace == space, "peer-has-drained-everything-at-quiescence", "")
 	name := verifModeName(mode)
 	if conn.closed {
 		verifReach("closed")
